@@ -9,7 +9,9 @@ T2  C10 parse / rt            : the real textproto.ReadHeader / WriteHeader vs M
     (C10 smtp)                : the same behind a REAL SMTP endpoint + pipeline; handed to the model as a `C10 run` line
 T3  monitor                   : every attempt compared byte for byte with what was accepted; every spool file grepped for
                                 the credentials of the authenticated connection; the other half - the target IS handed the
-                                message while recipients are pending (by the recording target's own answers, minus the
+                                message while recipients are pending (by the recording target's own answers - every deferred
+                                address ONCE: an address listed twice in the envelope is one recipient from the first attempt on,
+                                handed over twice only while the accepted list has not been rewritten - minus the
                                 recipients the queue logged a terminal failure for): a history's attempt step that does not
                                 take place, or a spool entry gone / incomplete while somebody is pending, is
                                 C10/pending-message-dropped; header/body files altered at rest C10/spool-content-changed;
@@ -86,7 +88,8 @@ def run(c):
         "(b) raw-field lists through the real WriteHeader+ReadHeader and the model, 0-25% ill-shaped fields; "
         "(c) messages through the REAL queue: header = what ReadHeader makes of a generated blob + 1-3 fields added the way maddy adds them (Received, Authentication-Results, DKIM-Signature, long words) + 4% junk raw fields; "
         "bodies 0 B - 70 kB (and 1 MiB - 3 MiB) as MemoryBuffer or FileBuffer (removed right after Commit), text / all byte values / dot and CRLF.CRLF patterns / bare CR LF NUL / zeros; "
-        "envelopes: null sender, ASCII, IDN U-label and A-label, quoted local parts with spaces, quotes, @, controls, UTF-8 local parts, <>&, backslash, U+2028, 1-16 recipients, duplicates, OriginalRcpts nil / 0-11 entries, "
+        "envelopes: null sender, ASCII, IDN U-label and A-label, quoted local parts with spaces, quotes, @, controls, UTF-8 local parts, <>&, backslash, U+2028, 1-16 recipients, duplicates "
+        "(6%: an address listed twice; deferred it is pending ONCE - every later attempt and the spool at rest must name it once, C10/pending-recipients-changed otherwise), OriginalRcpts nil / 0-11 entries, "
         "2% strings that are not valid UTF-8 (model predicts the U+FFFD replacement; outside the monitor's domain since the endpoint refuses them); SMTPUTF8 / REQUIRETLS / TLS-Required override in all 8 combinations, override set before or after Start; "
         "connection state absent / anonymous / authenticated (user name + password with JSON-escaped characters, AUTH= parameter); "
         "histories of 1-10 attempts against a partial or atomic target (per recipient: delivered / temporary at body / temporary or permanent at RCPT / nobody accepted) with 0-8 restarts (also idle ones, also between Body and Commit (`r` first), "
@@ -115,7 +118,8 @@ def run(c):
         "models tied to textproto and queue.go by differential runs; the monitor compares every attempt with what was accepted, greps the spool for the credentials, "
         "and requires that a message with pending recipients is attempted when the history says so and is complete and unaltered in the spool whenever the queue is at rest; "
         "failure reports generated between attempts (and by a second queue sharing header value and metadata) must leave every later attempt and the source's own header / metadata as accepted; "
-        "the store step is 'file := new content' (C10_store_overwrites_leftovers; os.Create pinned by the regenerated writer list), the envelope handed over never depends on the header (C10_override_does_not_depend_on_the_header)",
+        "the store step is 'file := new content' (C10_store_overwrites_leftovers; os.Create pinned by the regenerated writer list), the envelope handed over never depends on the header (C10_override_does_not_depend_on_the_header); "
+        "what an attempt leaves pending is the set of the deferred addresses, each once, in order of first occurrence (C10_pending_is_the_retry_set_each_once, C10_repeated_recipient_is_pending_once)",
         search=search,
     )
 
